@@ -83,6 +83,7 @@ type absExec struct {
 	st    *absState
 	fail  string
 	steps int
+	free  map[ssa.Value]string // captured integer variables of the function literal being executed
 }
 
 func (e *absExec) cmp(op token.Token, a, b string) (bool, bool) {
@@ -367,6 +368,47 @@ func (e *absExec) exec(f *ssa.Function, argSym string, depth int, impl *replImpl
 						}
 						continue
 					}
+					// a function literal handed to a "run this under the lock" helper runs here
+					if g := x.Call.StaticCallee(); g != nil && g.Blocks != nil && g.Pkg == f.Pkg {
+						ran := false
+						for i, a := range x.Call.Args {
+							mc, ok := a.(*ssa.MakeClosure)
+							if !ok || i >= len(g.Params) || !e.c.mustCallParam(g, g.Params[i]) {
+								continue
+							}
+							lit, ok := mc.Fn.(*ssa.Function)
+							if !ok {
+								continue
+							}
+							saved := e.free
+							env := map[ssa.Value]string{}
+							for j, fv := range lit.FreeVars {
+								if j >= len(mc.Bindings) {
+									continue
+								}
+								b := mc.Bindings[j]
+								if al, ok := b.(*ssa.Alloc); ok {
+									if sv := uniqueStore(al); sv != nil {
+										if s0, ok := symOf(sv); ok {
+											env[fv] = s0
+										}
+									}
+								} else if s0, ok := symOf(b); ok {
+									env[fv] = s0
+								}
+							}
+							e.free = env
+							e.exec(lit, "", depth+1, impl)
+							e.free = saved
+							ran = true
+							if e.fail != "" {
+								return "", false
+							}
+						}
+						if ran {
+							continue
+						}
+					}
 					if g := x.Call.StaticCallee(); g != nil && g.Blocks != nil && g.Pkg == f.Pkg && (touchesStatus(e.c, g, 0) || (isIntType(x.Type()) && pureIntHelper(e.c, g))) {
 						arg := ""
 						for i, p := range g.Params {
@@ -402,6 +444,22 @@ func (e *absExec) exec(f *ssa.Function, argSym string, depth int, impl *replImpl
 			case *ssa.Jump:
 				next = blk.Succs[0]
 			case *ssa.UnOp:
+				// a load of a captured integer variable
+				if x.Op == token.MUL {
+					if fv, ok := x.X.(*ssa.FreeVar); ok {
+						if sv, ok := e.free[fv]; ok {
+							val[x] = sv
+						}
+					}
+					// a parameter spilled into a cell because a function literal captures it
+					if a, ok := x.X.(*ssa.Alloc); ok {
+						if sv := uniqueStore(a); sv != nil {
+							if s0, ok := symOf(sv); ok {
+								val[x] = s0
+							}
+						}
+					}
+				}
 				// a load of one of the status object's two fields
 				if x.Op == token.MUL {
 					switch statusField(x.X) {
@@ -599,11 +657,13 @@ func rulesStatus(c *Ctx) {
 			continue
 		}
 		n := map[*ssa.Function]bool{}
-		eachCall(f, func(call ssa.CallInstruction) {
-			if g := call.Common().StaticCallee(); g != nil && isDirect[g] {
-				n[g] = true
-			}
-		})
+		for _, fc := range withClosures(f) {
+			eachCall(fc, func(call ssa.CallInstruction) {
+				if g := call.Common().StaticCallee(); g != nil && isDirect[g] {
+					n[g] = true
+				}
+			})
+		}
 		// a composition is itself a recalculation helper only when, like them, it takes nothing
 		// but integers: an operation that happens to call two helpers (a load, a merge) is a
 		// caller, and R3/R4 look at callers
